@@ -24,9 +24,19 @@ def fail_key(t, fails):
     return f"{a['name']}{('/' + form) if form else ''}:{aspect}"
 
 
+def event_key(ev, fails):
+    a = ev["act"]
+    kind = "rational" if (ev["c"]["W"] or ev["b"]["W"]) else "polynomial"
+    extra = a.get("op") or a.get("which") or (a.get("tol") or [""])[0]
+    return f"{a['name']}{('/' + str(extra)) if extra else ''}:{kind}:{'+'.join(sorted(fails))}"
+
+
 def model_replay(prop, tier, ev, rep, module, cfg, *, mode="fraction", label=None, keyfn=fail_key,
                  timeout=3000, filt=None):
-    """run one MC instance, replay all its transitions, report failures; returns TLCResult"""
+    """run one MC instance, replay all its transitions (Binding A), judge the relationally specified
+    outcomes with Trace.tla (Binding B), report failures; returns TLCResult"""
+    from .trace import Validator
+
     res = run_tlc(module, cfg, timeout=timeout)
     need_ok(res, f"{module}/{cfg}")
     if res.violation:
@@ -34,7 +44,8 @@ def model_replay(prop, tier, ev, rep, module, cfg, *, mode="fraction", label=Non
         raise core.MachineryError(f"spec-level violation in {module}/{cfg}:\n{res.violation[:3000]}")
     ev.add_tlc(res, label or cfg)
     lib = core.import_lib()
-    r = Replayer(lib, mode)
+    val = Validator()
+    r = Replayer(lib, mode, validator=val)
     recs = res.records if filt is None else [t for t in res.records if filt(t)]
 
     def on_fail(t, fails):
@@ -46,6 +57,26 @@ def model_replay(prop, tier, ev, rep, module, cfg, *, mode="fraction", label=Non
     per = ev.extra.setdefault("replayed_by_action", {})
     for t in recs:
         per[t["act"]["name"]] = per.get(t["act"]["name"], 0) + 1
+    if val.events:
+        verdicts, unknown, stats = val.run(timeout=timeout)
+        b = ev.extra.setdefault("binding_B", {"events_judged_by_TLC": 0, "unknown_overflow": 0, "tlc_states": 0,
+                                              "tlc_wall_s": 0.0, "failing_events": 0})
+        b["events_judged_by_TLC"] += len(verdicts)
+        b["unknown_overflow"] += len(unknown)
+        b["tlc_states"] += stats["states"]
+        b["tlc_wall_s"] = round(b["tlc_wall_s"] + stats["wall_s"], 2)
+        ev.states += stats["states"]
+        ev.transitions += stats["generated"]
+        for e, tag in val.events:
+            fails = verdicts.get(e["id"]) or []
+            unk = [f for f in fails if f.startswith("?")]
+            fails = [f for f in fails if not f.startswith("?")]
+            if unk:
+                b["unknown_clauses"] = b.get("unknown_clauses", 0) + len(unk)
+            if fails:
+                b["failing_events"] += 1
+                rep.violation(event_key(e, fails), {"event": e, "clauses": fails, "transition": tag,
+                                                    "mode": mode, "model": module, "cfg": cfg})
     return res
 
 
@@ -83,10 +114,15 @@ def simple(prop, cfgs, assumptions=()):
 c01 = simple("C01", [("MC_Curve.tla", "MC_Curve_eval_TIER.cfg")])
 c02 = simple("C02", [("MC_Curve.tla", "MC_Curve_basis_TIER.cfg")])
 c04 = simple("C04", [("MC_Curve.tla", "MC_Curve_insert_TIER.cfg")])
-c06 = simple("C06", [("MC_Curve.tla", "MC_Curve_elevate_TIER.cfg")])
-c07 = simple("C07", [("MC_Curve.tla", "MC_Curve_split_TIER.cfg")])
+c05 = simple("C05", [("MC_Curve.tla", "MC_Curve_remove_TIER.cfg")])
+c06 = simple("C06", [("MC_Curve.tla", "MC_Curve_elevate_TIER.cfg"), ("MC_Curve.tla", "MC_Curve_decrease_TIER.cfg")])
+c07 = simple("C07", [("MC_Curve.tla", "MC_Curve_split_TIER.cfg"), ("MC_Curve.tla", "MC_Curve_join_TIER.cfg")])
+c08 = simple("C08", [("MC_Curve.tla", "MC_Curve_arith_TIER.cfg")])
+c13 = simple("C13", [("MC_Curve.tla", "MC_Curve_eq_TIER.cfg")])
+c14 = simple("C14", [("MC_Curve.tla", "MC_Curve_clean_TIER.cfg")])
 
-CHECKS = {"C01": c01, "C02": c02, "C03": c03, "C04": c04, "C06": c06, "C07": c07}
+CHECKS = {"C01": c01, "C02": c02, "C03": c03, "C04": c04, "C05": c05, "C06": c06, "C07": c07, "C08": c08,
+          "C13": c13, "C14": c14}
 
 
 def run(prop, tier):
